@@ -256,6 +256,38 @@ def r_flipshape(f):
     rev += [t for x in bodies for _, t, fn in x.calls() if fn and fn["name"] in ("for_each",) and any(a["k"] == "const" and (a.get("fn") or {}).get("path") == "core::slice::<impl [T]>::reverse" for a in t["args"][1:])]
     adv = set(steps) - {"into_iter"}
     ok = bool(rev) and adv <= {"next", "for_each", "fold"} and bool(adv)
+    if not rev and adv <= {"next", "for_each", "fold"} and adv:
+        # index form, per row: for c in 0..num_cols()/2 { row.swap(c, num_cols() - 1 - c) }   (also with row.len())
+        okm = False
+        for x in bodies:
+            dx_ = Dfx(x)
+            def is_cols(e):
+                e = strip(e)
+                return e[0] == "call" and e[2] in ("num_cols", "len")
+            def is_item_(e):
+                e = strip(e)
+                return e[0] == "field" and e[2] == 0 and any(y[0] == "call" and y[2] == "next" for y in walk(e))
+            ends_ = []
+            for _, _, st in x.stmts():
+                if st["k"] == "assign" and st["rv"]["k"] == "agg" and (st["rv"].get("adt") or "").endswith("ops::Range") and len(st["rv"]["fields"]) == 2:
+                    ends_.append((const_usize(strip(dx_.expr(st["rv"]["fields"][0]))), strip(dx_.expr(st["rv"]["fields"][1]))))
+            sws = [t for _, t, fn in x.calls() if fn and fn["path"] == "core::slice::<impl [T]>::swap" and len(t["args"]) == 3]
+            if len(ends_) != 1 or len(sws) != 1:
+                continue
+            e1 = ends_[0][1]
+            half = ends_[0][0] == 0 and e1[0] == "bin" and ((e1[1] == "Div" and const_usize(strip(e1[3])) == 2) or (e1[1] == "Shr" and const_usize(strip(e1[3])) == 1)) and is_cols(e1[2])
+            a1, a2 = strip(dx_.expr(sws[0]["args"][1])), strip(dx_.expr(sws[0]["args"][2]))
+            def mirror_(p_, q_):
+                q_ = strip(q_)
+                if not (is_item_(p_) and q_[0] == "bin" and q_[1].startswith("Sub")):
+                    return False
+                l, r = strip(q_[2]), strip(q_[3])
+                if is_item_(r) and l[0] == "bin" and l[1].startswith("Sub") and is_cols(l[2]) and const_usize(strip(l[3])) == 1:
+                    return True
+                return const_usize(r) == 1 and l[0] == "bin" and l[1].startswith("Sub") and is_cols(l[2]) and is_item_(l[3])
+            if half and (mirror_(a1, a2) or mirror_(a2, a1)):
+                okm = True
+        ok = okm
     R.inst(b.ident, "reverses every row of rows_mut() (cursor advanced only by %s)" % sorted(adv), ok)
     if not ok:
         R.fail(b.ident, "shape", "flip_cols does not reverse every row (steps %s, reverse calls %d)" % (sorted(adv), len(rev)), b.where())
@@ -309,6 +341,17 @@ def r_conv(f):
                     b, vp = hb, pos[0] + 1
                     continue
             break
+        # `TooDee::from(TooDeeView::from(view_mut))`: the mutable view is first downgraded by the crate's own view -> view
+        # conversion (its fields are checked by R-UNITS / R-LAYOUT), then copied like any read-only view
+        cs2 = [(t, fn) for _, t, fn in b.calls() if fn]
+        if len(cs2) == 2 and not b.has_loop():
+            hb1, hb2 = f.crate_fn_for_call(cs2[0][1]), f.crate_fn_for_call(cs2[1][1])
+            dd = Dfx(b)
+            if hb1 is not None and hb2 is not None and hb1.name == "from" and hb1.self_head == "TooDeeView" and hb2.name == "from" and hb2.self_head == "TooDee" \
+                    and strip(dd.expr(cs2[0][0]["args"][0])) == ("param", vp) and cs2[1][0]["dest"]["local"] == 0:
+                a2 = strip(dd.expr(cs2[1][0]["args"][0]))
+                if a2[0] == "call" and a2[2] == "from" and strip(a2[3][0]) == ("param", vp):
+                    b, vp = hb2, 1
         d = Dfx(b)
         clos = [c for c in f.fn_bodies if c.kind == "Closure" and c.d.get("root") == b.id]
         steps = cursor_steps(b, "Rows")
@@ -319,6 +362,26 @@ def r_conv(f):
         if ok:
             recv = strip(d.expr(rows_calls[0]["args"][0]))
             ok = any(x == ("param", vp) for x in walk(recv))
+        if not ok and not rows_calls and len(ext) == 1:
+            # counted form: `for r in 0..view.num_rows() { v.extend_from_slice(view.get_unchecked_row(r) | &view[r]) }`
+            from .rules_serde import size_components
+            smap_ = size_components(f)
+            def is_rows_count(e):
+                e = strip(e)
+                if e[0] == "call" and e[2] == "num_rows" and any(x == ("param", vp) for x in walk(e)): return True
+                return e[0] == "field" and strip(e[1])[0] == "call" and strip(e[1])[2] == "size" and smap_.get(e[2]) == "num_rows" and any(x == ("param", vp) for x in walk(e))
+            rng_ok = False
+            for _, _, st_ in b.stmts():
+                if st_["k"] == "assign" and st_["rv"]["k"] == "agg" and st_["rv"].get("agg") == "adt" and st_["rv"]["adt"].endswith("ops::Range"):
+                    fs_ = [strip(d.expr(x)) for x in st_["rv"]["fields"]]
+                    rng_ok = len(fs_) == 2 and const_usize(fs_[0]) == 0 and is_rows_count(fs_[1])
+            rev_ = any(fn and fn["name"] in ("rev", "next_back", "rfold", "nth_back", "step_by", "skip") for _, _, fn in b.calls())
+            fetch = [t for _, t, fn in b.calls() if fn and fn["name"] in ("get_unchecked_row", "index") and len(t["args"]) == 2]
+            fetch_ok = len(fetch) == 1 and any(x == ("param", vp) for x in walk(strip(d.expr(fetch[0]["args"][0]))))
+            if fetch_ok:
+                ie = strip(d.expr(fetch[0]["args"][1]))
+                fetch_ok = any(x[0] == "call" and x[2] == "next" and "Range<usize>" in " ".join((x[4] or {}).get("args", []) if len(x) > 4 and isinstance(x[4], dict) else []) for x in walk(ie))
+            ok = rng_ok and fetch_ok and not rev_
         R.inst(b0.ident, "copies view.rows() front to back with extend_from_slice (steps %s%s)" % (sorted(set(steps)), "" if b is b0 else ", in helper %s" % b.ident), ok)
         if not ok:
             R.fail(b0.ident, "rows-order", "From<%s> does not append the rows of the given view front to back" % who, b.where())
@@ -394,10 +457,109 @@ def r_conv(f):
         if b is None:
             raise AnchorMissing("TooDee as %s" % tr)
         n += 1
-        R.inst(b.ident, "compiler-derived (automatically_derived) over the struct's fields", bool(b.d.get("derived")))
-        if not b.d.get("derived"):
-            R.note("%s is hand-written: equality/hash/clone are no longer 'dimensions and cells' by the derive's contract; not decided" % b.ident)
+        if b.d.get("derived"):
+            R.inst(b.ident, "compiler-derived (automatically_derived) over the struct's fields", True)
+            continue
+        # hand-written: decided structurally over the three fields
+        d = Dfx(b)
+        tdf = [a for a in f.adts if a["id"].split("::")[-1] == "TooDee"][0]
+        fidx = {x["name"]: i for i, x in enumerate(tdf["fields"])}
+        three = ("data", "num_rows", "num_cols")
+
+        def field_reads(par):
+            got = set()
+            for bb in [b] + b.closures():
+                for bl in bb.blocks:
+                    for pl in _all_places([bl["stmts"], bl["term"]]):
+                        if bb is b and pl["local"] == par:
+                            for pe in pl["proj"]:
+                                if pe["k"] == "field":
+                                    got.add(pe["i"]); break
+            # getters on the parameter
+            for _, t, fn in b.calls():
+                if fn and fn["name"] in ("size", "num_rows", "num_cols", "data") and t["args"]:
+                    e = strip(d.expr(t["args"][0]))
+                    if any(x == ("param", par) for x in walk(e)):
+                        got |= {fidx[nm] for nm in ({"size": ("num_rows", "num_cols"), "num_rows": ("num_rows",), "num_cols": ("num_cols",), "data": ("data",)}[fn["name"]])}
+            return got
+        if tr == "Clone::clone":
+            okc = False
+            for _, _, st in b.stmts():
+                if st["k"] == "assign" and st["rv"]["k"] == "agg" and st["rv"].get("agg") == "adt" and st["rv"]["adt"].endswith("TooDee"):
+                    fn_ = st["rv"]["fields_names"]
+                    okc = True
+                    for nm in three:
+                        e = strip(d.expr(st["rv"]["fields"][fn_.index(nm)]))
+                        src_ok = any(x[0] == "field" and x[2] == fidx[nm] and strip(x[1]) in (("deref", ("param", 1)), ("param", 1)) for x in walk(e))
+                        if nm == "data":
+                            src_ok = src_ok and e[0] == "call" and e[2] in ("clone", "to_vec", "to_owned")
+                        else:
+                            src_ok = src_ok and e[0] == "field"
+                        okc = okc and src_ok
+            R.inst(b.ident, "hand-written clone builds TooDee { data: self.data.clone(), num_rows: self.num_rows, num_cols: self.num_cols }", okc)
+            if not okc:
+                R.fail(b.ident, "clone-fields", "%s is hand-written and does not build every field of the copy from the same field of the original: clone() no longer yields an equal array" % b.ident, b.where())
+            # an overridden clone_from must leave self equal to the source on every path: all three fields written, or *self = ..
+            cf = f.get("TooDee as Clone::clone_from")
+            if cf is not None:
+                n += 1
+                fw = {}
+                for bi, bl in enumerate(cf.blocks):
+                    w = set()
+                    for st in bl["stmts"]:
+                        if st["k"] != "assign":
+                            continue
+                        pl = st["p"]
+                        if pl["local"] == 1 and pl["proj"] and pl["proj"][0]["k"] == "deref":
+                            if len(pl["proj"]) == 1:
+                                w |= set(fidx.values())
+                            elif pl["proj"][1]["k"] == "field":
+                                w.add(pl["proj"][1]["i"])
+                        rv = st["rv"]
+                        if rv["k"] in ("ref", "rawptr") and rv.get("mut", rv["k"] == "rawptr") and rv["p"]["local"] == 1 and len(rv["p"]["proj"]) >= 2 and rv["p"]["proj"][1]["k"] == "field":
+                            w.add(rv["p"]["proj"][1]["i"])
+                    fw[bi] = w
+                # forward must-analysis: fields written on every path
+                IN = {0: set()}
+                work = [0]
+                allf = set(fidx.values())
+                while work:
+                    x = work.pop()
+                    out = IN[x] | fw.get(x, set())
+                    for y in cf.succs(x):
+                        if cf.blocks[y]["cleanup"]:
+                            continue
+                        new = out if y not in IN else (IN[y] & out)
+                        if y not in IN or new != IN[y]:
+                            IN[y] = set(new); work.append(y)
+                rets = [rb for rb, bl in enumerate(cf.blocks) if bl["term"] and bl["term"]["k"] == "return" and not bl["cleanup"] and rb in IN]
+                missing = sorted({nm for rb in rets for nm in three if fidx[nm] not in (IN[rb] | fw.get(rb, set()))})
+                R.inst(cf.ident, "clone_from writes data, num_rows and num_cols (or the whole array) on every path", not missing)
+                if missing:
+                    R.fail(cf.ident, "clone_from-fields:%s" % ",".join(missing), "%s can return without having written %s: after a.clone_from(&b) the array is not equal to b for some pair of shapes" % (cf.ident, ", ".join(missing)), cf.where())
+        elif tr == "PartialEq::eq":
+            r1, r2 = field_reads(1), field_reads(2)
+            miss = sorted(nm for nm in three if fidx[nm] not in r1 or fidx[nm] not in r2)
+            R.inst(b.ident, "hand-written eq looks at data, num_rows and num_cols of both operands", not miss)
+            if miss:
+                R.fail(b.ident, "eq-fields:%s" % ",".join(miss), "%s is hand-written and never looks at %s of both operands: arrays that differ there compare equal" % (b.ident, ", ".join(miss)), b.where())
+        else:
+            foreign = sorted({fn["name"] for bb in [b] + b.closures() for _, t, fn in bb.calls() if fn and fn["name"] in ("capacity", "as_ptr", "as_mut_ptr", "addr", "spare_capacity_mut", "type_id")})
+            R.inst(b.ident, "hand-written hash feeds only the fields that eq compares", not foreign)
+            if foreign:
+                R.fail(b.ident, "hash-foreign:%s" % ",".join(foreign), "%s is hand-written and hashes %s, which equality does not compare: equal arrays can hash differently" % (b.ident, ", ".join(foreign)), b.where())
     return R, n
+
+
+def _all_places(x):
+    if isinstance(x, dict):
+        if "local" in x and "proj" in x:
+            yield x
+        for v in x.values():
+            yield from _all_places(v)
+    elif isinstance(x, list):
+        for v in x:
+            yield from _all_places(v)
 
 
 def r_intoiter(f):
@@ -942,6 +1104,16 @@ def r_noshift(f):
         return R, 0
     MOVERS = ("rotate_left", "rotate_right", "swap_with_slice", "swap", "reverse", "swap_rows", "swap_cols", "copy_from_slice", "clone_from_slice", "swap_nonoverlapping")
     move_blocks = [bi for bi, t, fn in b.calls() if fn and fn["name"] in MOVERS]
+    # .. or a higher-order call (`rows_mut().for_each(|r| r.rotate_left(..))`) whose closure / function-item argument moves
+    mover_clos = {c.id for c in b.closures() if any(fn2 and fn2["name"] in MOVERS for _, _, fn2 in c.calls())}
+    dm_ = Dfx(b)
+    for bi, t, fn in b.calls():
+        if not fn or bi in move_blocks:
+            continue
+        for a in t["args"]:
+            ea = dm_.expr(a)
+            if any((x[0] == "agg" and x[1] == "closure" and len(x) > 3 and x[3] in mover_clos) or (x[0] == "fn" and x[1].split("::")[-1] in MOVERS) for x in walk(ea)):
+                move_blocks.append(bi)
     reach_from_move = set()
     for mb in move_blocks:
         reach_from_move |= set(b.reachable(mb)) - {mb}
@@ -977,10 +1149,35 @@ def r_noshift(f):
             if t and (t["k"] == "return" or (t["k"] == "goto" and t["target"] in funnel)):
                 funnel.add(bi); changed = True
     preds = b.preds()
+    # exits taken only for an empty array (`if self.is_empty() { return }`, `if self.num_rows() == 0 ..`): nothing to move
+    dfe = Dfx(b)
+    dome = b.dominators()
+    empty_succ = []
+    for sb, bl in enumerate(b.blocks):
+        tt = bl["term"]
+        if bl["cleanup"] or not tt or tt["k"] != "switch":
+            continue
+        e_ = strip(dfe.expr(tt["discr"]))
+        neg_ = False
+        while e_[0] == "un" and e_[1] == "Not":
+            neg_ = not neg_; e_ = strip(e_[2])
+        is_emp = None
+        if e_[0] == "call" and e_[2] == "is_empty" and e_[3] and any(x == ("param", 1) for x in walk(e_[3][0])):
+            is_emp = True
+        elif e_[0] == "bin" and e_[1] in ("Eq", "Ne") and any(const_usize(o) == 0 for o in (e_[2], e_[3])) and \
+                any(strip(o)[0] == "call" and strip(o)[2] in ("num_rows", "num_cols") and any(x == ("param", 1) for x in walk(o)) for o in (e_[2], e_[3])):
+            is_emp = e_[1] == "Eq"
+        if is_emp is None:
+            continue
+        tm_ = dict((int(a), b2) for a, b2 in tt["targets"])
+        f_succ, t_succ = tm_.get(0, tt["otherwise"]), (tt["otherwise"] if 0 in tm_ else tm_.get(1))
+        empty_succ.append(t_succ if (is_emp != neg_) else f_succ)
     for e in sorted(funnel):
         if not any(p_ not in funnel for p_ in preds[e]) and e != 0:
             continue          # not an entry of the funnel
         if e in reach_from_move or e in move_blocks:
+            continue
+        if any(es is not None and (es == e or es in dome.get(e, set())) for es in empty_succ):
             continue
         nexit[0] += 1
         for tup in IN[e]:
